@@ -40,7 +40,8 @@ THEOREMS = {
                                          "Tr.nv_hypotheses", "Tr.nv_hypotheses_complete", "Tr.nv_results"]),
     "C11": ("TrVerif.Props.C11", ["Tr.C11_connSet", "Tr.C11_restrict", "Tr.C11_answers", "Tr.C11_route"]),
     "C12": ("TrVerif.Props.NonVacuity", ["Tr.C12_full_accessibility_departure", "Tr.C12_full_accessibility_departure_indexed", "Tr.fwdStep_shift", "Tr.fwdFoot_shift", "Tr.forwardNode_shift",
-                                  "Tr.fwd_list_shift", "Tr.nv_full_shift", "Tr.C12_index_transparent_route", "Tr.C12_index_transparent_accessibility", "Tr.fwdScan_from_start", "Tr.revScan_from_start",
+                                  "Tr.fwd_list_shift", "Tr.nv_full_shift", "Tr.C12_full_accessibility_arrival", "Tr.C12_full_accessibility_arrival_indexed", "Tr.revStep_shift", "Tr.revFoot_shift",
+                                  "Tr.reconLoop_shift", "Tr.optimizeJourney_shift", "Tr.applyFound_shift", "Tr.reverseNode_shift", "Tr.nv_full_shift_rev", "Tr.C12_index_transparent_route", "Tr.C12_index_transparent_accessibility", "Tr.fwdScan_from_start", "Tr.revScan_from_start",
                                   "Tr.singleReverse_eq0", "Tr.before_start_early", "Tr.before_start_late", "Tr.fwdIndex_spec", "Tr.revIndex_spec", "Tr.C18_index_safe", "Tr.C07_scan_start",
                                   "Tr.C12_departure", "Tr.C12_arrival", "Tr.C12_map_departure", "Tr.C12_map_arrival", "Tr.C12_departure_query", "Tr.C12_arrival_query",
                                   "Tr.C12_accessibility_departure", "Tr.C12_accessibility_arrival", "Tr.AdmFwd.shift", "Tr.AdmRev.shift", "Tr.Reach.shift", "Tr.RReach.shift",
@@ -171,7 +172,9 @@ _reg("C11", "PROOF (full, over the model): Tr.C11_answers / Tr.C11_route - route
      "under the all-inclusive scenario on the dataset with the excluded trips removed (filter commutes with both stable sorts; the calculation reads trips only "
      "through the connection set). " + _M + "; the metamorphic relation is also run on the implementation with physically deleted trips.",
      "Lean 4 theorem + differential correspondence + metamorphic run on the implementation")
-_reg("C12", "PROOF (partial; departure-time accessibility IN FULL, the rest in two halves): (0) Tr.C12_full_accessibility_departure(_indexed) - translation invariance of the CALCULATION ITSELF for "
+_reg("C12", "PROOF (partial; BOTH accessibility calculations IN FULL, routes in two halves): (0) Tr.C12_full_accessibility_departure(_indexed) and Tr.C12_full_accessibility_arrival(_indexed) - "
+     "translation invariance of the CALCULATION ITSELF for accessibility in both time types (arrival: reverse scan Tr.revStep_shift, reconstruction Tr.reconLoop_shift, clean-up with all four rewrite "
+     "cases Tr.applyFound_shift / Tr.optimizeJourney_shift, transfer count; range condition = every label candidate stays >= 0 on both sides, the property's 'next to 0:00'; Tr.nv_full_shift_rev). For "
      "departure-time accessibility: for EVERY dataset (zero-duration hops, any footpaths), every query (first-waiting cap, limits, scenario) and every offset k, with the clock values clear of the "
      "MAX_INT sentinel, the answer of the shifted problem is the answer of the original one with every node time moved by k - same status, reason, stops, travel times, numbers of transfers; no "
      "optimality domain: the scan states of the two runs are related connection by connection (Tr.fwdStep_shift, Tr.fwdFoot_shift, Tr.forwardNode_shift; Tr.fwd_list_shift - the sorted list of the "
